@@ -64,7 +64,8 @@ theorem opt_r (e : EqEnv) (n : Nat) :
 theorem opt_p (n : Nat) :
     optimize cfgE eP (n + 9) (.union [.obj [("x", .list .unknown)], .obj [("x", .list .null)]]) =
       .ok (.obj [("x", .list (.opt .unknown))]) := by
-  simp +decide [optimize, optimizeUnion, splitMembers, Ty.isInt, Ty.isFloat, Ty.isStr, Ty.isUnknown,
+  simp +decide [optimize, optimizeUnion, splitMembers, splitMembersAux, Ty.size, Ty.sizeList, Ty.isInt, Ty.isFloat,
+    Ty.isStr, Ty.isUnknown,
     Ty.isNull, bind, Except.bind, pure, Except.pure, mkUnion, mkUnionMembers, flattenUnion, handleType, hashStr,
     hashStrs, removeFirst, cfgE, mergeFieldSets, mergeFieldSets.go, mergeStep, mergeOne, Fields.get?, Fields.set,
     Fields.keys, Fields.has, Ty.isOpt, eq4, Ty.unionMembers]
@@ -111,14 +112,16 @@ theorem exP_mergeFields (so : StrOracle) :
 theorem exP_optimize_field (e : EqEnv) (n : Nat) :
     optimize cfgE e (n + 6) (.union [.list .int, .list .unknown, .list (.opt .unknown)]) =
       .ok (.list (.opt (.union [.int, .unknown]))) := by
-  simp +decide [optimize, optimizeUnion, splitMembers, Ty.isInt, Ty.isFloat, Ty.isStr, Ty.isUnknown,
+  simp +decide [optimize, optimizeUnion, splitMembers, splitMembersAux, Ty.size, Ty.sizeList, Ty.isInt, Ty.isFloat,
+    Ty.isStr, Ty.isUnknown,
     Ty.isNull, bind, Except.bind, pure, Except.pure, mkUnion, mkUnionMembers, flattenUnion, handleType, hashStr,
     hashStrs, removeFirst, cfgE]
 
 /-- a SECOND `optimize_type` (the final pass of `merge_models`) repairs it: `List[Optional[int]]` -/
 theorem exP_optimize_again (e : EqEnv) (n : Nat) :
     optimize cfgE e (n + 6) (.list (.opt (.union [.int, .unknown]))) = .ok (.list (.opt .int)) := by
-  simp +decide [optimize, optimizeUnion, splitMembers, Ty.isInt, Ty.isFloat, Ty.isStr, Ty.isUnknown,
+  simp +decide [optimize, optimizeUnion, splitMembers, splitMembersAux, Ty.size, Ty.sizeList, Ty.isInt, Ty.isFloat,
+    Ty.isStr, Ty.isUnknown,
     Ty.isNull, bind, Except.bind, pure, Except.pure, mkUnion, mkUnionMembers, flattenUnion, handleType, hashStr,
     hashStrs, removeFirst, cfgE]
 
